@@ -8,7 +8,7 @@ Import ListNotations.
 Open Scope Z_scope.
 
 Definition src_supports_sharedmem (k : ckind) : bool :=
-  match k with | BSeq => false | BThr => true | BLoky => false | BMp => false | BCustShm => true | BCustProc => false end.
+  match k with | BSeq => true | BThr => true | BLoky => false | BMp => false | BCustShm => true | BCustProc => false end.
 
 Definition src_uses_threads (k : ckind) : bool :=
   match k with | BSeq => true | BThr => true | BLoky => false | BMp => false | BCustShm => true | BCustProc => false end.
